@@ -103,7 +103,7 @@ func c3ArmSSA(c *Ctx, fn *ssa.Function, kv int64) *armInfo {
 				}
 			case *ssa.Call:
 				if f := CalleeFunc(x); f != nil && f.Pkg() != nil && f.Pkg().Path() == "math" && len(x.Call.Args) == 1 {
-					a.ops = append(a.ops, cop{kind: "call", name: f.Name(), typ: x.Type()})
+					a.ops = append(a.ops, cop{kind: "call", name: FNm(f), typ: x.Type()})
 					v = x.Call.Args[0]
 					continue
 				}
@@ -166,7 +166,7 @@ func c3ArmSSA(c *Ctx, fn *ssa.Function, kv int64) *armInfo {
 				}
 				ac := armCall{pos: x.Pos()}
 				if x.Call.IsInvoke() {
-					ac.name, ac.fn = x.Call.Method.Name(), x.Call.Method
+					ac.name, ac.fn = FNm(x.Call.Method), x.Call.Method
 					r := x.Call.Value
 					for i := 0; i < 8; i++ {
 						if nx := st.Step(r); nx != nil {
@@ -180,7 +180,7 @@ func c3ArmSSA(c *Ctx, fn *ssa.Function, kv int64) *armInfo {
 						chain(st, x.Call.Value, 0)
 					}
 				} else if f := CalleeFunc(x); f != nil {
-					ac.name = f.Name()
+					ac.name = FNm(f)
 					ac.fn = f
 					if f.Pkg() != nil && f.Pkg().Path() == "math" && len(x.Call.Args) == 1 {
 						return "" // part of a chain
